@@ -97,10 +97,12 @@ class PtrCell:
 
 
 class VVec:
-    __slots__ = ('items',)
+    """Vec<T>. An empty Vec whose element type is unknown becomes a byte buffer (`buf`) on first byte-slice use."""
+    __slots__ = ('items', 'buf')
 
     def __init__(s, items=None):
         s.items = items if items is not None else []
+        s.buf = None
 
 
 class VMap:
